@@ -457,7 +457,7 @@ def execute(scn: Scenario, prefix=(), want_snapshots=False, keep_graph=False) ->
     runner.previous_results = [dict(r) for r in scn.previous]
     g.runner = runner
     ch = Chooser(prefix)
-    loop = VLoop(ch, max_steps=getattr(scn, 'max_steps', 6000), max_time=getattr(scn, 'max_vtime', 3000.0))
+    loop = VLoop(ch, max_steps=getattr(scn, 'max_steps', 200000 if ('NORESULT' in scn.O or (scn.persistent and scn.persistent[1] == 'NORESULT')) else 6000), max_time=getattr(scn, 'max_vtime', 6000.0))
     ENV = env = Env(scn, loop, g)
     env.workers = {w.id: w for s in swarms.values() for w in s.workers}
     run_params = dict(scn.run_params if scn.run_params is not None else scn.params)
